@@ -313,15 +313,15 @@ func writeEvidence(dir string, res []*result, prop, tier string, seed int, wall 
 			"Each rule enumerates every instance of its construct in the loaded program and decides it; " +
 			"an instance that cannot be classified is reported as undecided and fails the check. " + strings.Join(expl, " | ") +
 			" || NOT decided: see DESIGN.md section 4 for this property ('Not decided').",
-		"exhaustive":   true,
-		"obligations":  len(all),
-		"discharged":   disc,
-		"checker_cmd":  "bin/fwdcheck -property " + prop + " -tier " + tier,
-		"trusted_base": trustedBase,
-		"rules":        stats,
-		"analysed":     cfgs,
+		"exhaustive":     true,
+		"obligations":    len(all),
+		"discharged":     disc,
+		"checker_cmd":    "bin/fwdcheck -property " + prop + " -tier " + tier,
+		"trusted_base":   trustedBase,
+		"rules":          stats,
+		"analysed":       cfgs,
 		"known_findings": known,
-		"samples":      samples,
+		"samples":        samples,
 		// the exploration-style keys, measured: one evaluation per rule instance
 		"evaluations":         len(all),
 		"distinct_nontrivial": countDistinct(all),
